@@ -7,7 +7,8 @@ From Coq Require Import List Arith NArith Bool.
 From Eino Require Import Base.Util Base.GoSlice Model.Callbacks Model.CallbacksStream Model.CallbacksSched
   Model.CallbacksResume Model.CallbacksEager Model.CallbacksPayload.
 From Eino Require Import Proofs.CallbacksSlice Proofs.Callbacks Proofs.CallbacksEngine Proofs.CallbacksStream
-  Proofs.CallbacksSched Proofs.CallbacksWitness Proofs.CallbacksResume Proofs.CallbacksEager Proofs.CallbacksPayload.
+  Proofs.CallbacksSched Proofs.CallbacksWitness Proofs.CallbacksResume Proofs.CallbacksEager Proofs.CallbacksPayload
+  Proofs.CallbacksFault.
 Import ListNotations.
 Local Open Scope N_scope.
 
@@ -707,6 +708,50 @@ Proof.
   - vm_compute. repeat (constructor; [simpl; intuition discriminate|]). constructor.
   - repeat split; vm_compute; reflexivity.
 Qed.
+
+(* ------------------------------------------------------------------ a resuming call that fails before anything is restored *)
+
+(* runner.run can fail in its prologue - before the first task is submitted: the checkpoint store
+   fails, the checkpoint does not decode or cannot be restored, the state modifier fails, the pending
+   tasks of the checkpoint belong to no node of the graph that resumes it (a newer build of the graph),
+   a call option is rejected.  The model says so with a call option that is rejected and carries no
+   handler ([prologue_fault], Model/CallbacksResume.v).  For every world, graph, call options and
+   schedule, the WHOLE log of such a run is: the handlers for the whole graph (and the global ones)
+   are served the graph's start, then the graph's error - once per attachment each - and nothing else. *)
+Theorem failed_prologue_serves_the_graph_once :
+  forall w is_stream g ginf opts stages t,
+    NoDup (g :: stages_uids stages) ->
+    traces (graph_prog is_stream g ginf (prologue_fault :: opts) stages) t ->
+    st_log (run_script true w t) =
+      served w g ginf (List.concat (undesignated opts)) (graph_start is_stream) ++
+      served w g ginf (List.concat (undesignated opts)) TError.
+Proof. exact fault_run_log. Qed.
+Print Assumptions failed_prologue_serves_the_graph_once.
+
+(* the run sequence in which the k-th call (k > 0: a call that resumes) fails in its prologue is a
+   [run_seqf] like every other ([with_fault k os] are call options): all [resumed_runs_*] theorems
+   hold for every run of it; the failing call is the last one, whatever was still to be executed *)
+Theorem failed_resume_ends_the_sequence :
+  forall fuel k os plan,
+    (0 < k)%nat ->
+    plan_seqf (S fuel) k (with_fault k os) plan = [(prologue_fault :: os k, plan)].
+Proof. exact fault_ends_sequence. Qed.
+Print Assumptions failed_resume_ends_the_sequence.
+
+(* Non-vacuity: the plan of [resumed_runs_nonvacuous]; the first call (handler 1 for the whole graph) is
+   interrupted, the call that resumes it (handler 4 for the whole graph, 3 designated to node 5) is made
+   by a build of the graph that cannot restore the pending tasks: the graph unit alone, start and
+   error; handler 4 is invoked twice, handler 3 and the global handler's siblings never. *)
+Example failed_resume_nonvacuous :
+  map (fun r => map (fun e => (ue_unit e, ue_list e, ue_timings e)) (graph_table false 0 0 (fst r) (snd r)))
+      (run_seqf (S (total_intr ex_plan)) (with_fault 1 (two_opts ex_popts ex_popts2)) ex_plan) =
+    [[(0, [1], [TStart; TError]); (1, [1], [TStart; TError]); (2, [1], [TStart; TError]);
+      (3, [1], [TStart; TEnd]); (4, [1; 2], [TStartStream; TError]); (5, [1; 3], [TStart; TEnd])];
+     [(0, [4], [TStart; TError])]] /\
+  map (fun r => st_log (run_script true (w_plain [9]) (flatten_alt (graph_prog false 0 0 (fst r) (snd r)))))
+      (skipn 1 (run_seqf (S (total_intr ex_plan)) (with_fault 1 (two_opts ex_popts ex_popts2)) ex_plan)) =
+    [[Ev 0 9 TStart 0; Ev 0 4 TStart 0; Ev 0 4 TError 0; Ev 0 9 TError 0]].
+Proof. split; vm_compute; reflexivity. Qed.
 
 (* ------------------------------------------------------------------ payloads *)
 
